@@ -969,6 +969,9 @@ class CompartmentalModel:
         from summer2.runner.jax.model_impl import build_run_model
 
         parameters = expand_nested_dict(parameters)
+        # Default parameters (if any) fill in anything not supplied, as in ModelResults.run;
+        # otherwise a parameter that is neither dynamic nor supplied cannot be frozen
+        parameters = {**(self._default_parameters or {}), **parameters}
         input_params = self.get_input_parameters()
         parameters = {k: v for k, v in parameters.items() if k in input_params}
         if self.builder:
